@@ -16,6 +16,11 @@ func SetUserIdentity(repo repository.RepoConfig, identity *Identity) error {
 }
 
 func ClearUserIdentity(repo repository.RepoConfig) error {
+	// removing a key that is not set is an error for the config: nothing to clear then
+	_, err := repo.LocalConfig().ReadString(identityConfigKey)
+	if errors.Is(err, repository.ErrNoConfigEntry) {
+		return nil
+	}
 	return repo.LocalConfig().RemoveAll(identityConfigKey)
 }
 
